@@ -1,5 +1,6 @@
 //! C08 — the unused fourth lane of Vec3A/Mat3A/Affine3A/BVec3A never influences a result.
 #![allow(deprecated, unused_braces)]
+#![cfg_attr(feature = "core", feature(portable_simd))]
 use vcore::*;
 
 #[cfg(not(feature = "core"))]
@@ -8,6 +9,10 @@ mod simd {
     use ::glam_simd as glam;
     include!(concat!(env!("CARGO_MANIFEST_DIR"), "/../apisupport/api_support.rs"));
     include!(concat!(env!("CARGO_MANIFEST_DIR"), "/../gen/api_table_sse2.rs"));
+    /// hidden lane injected through the raw-register conversion `From<__m128>`
+    pub fn raw_inject(x: f32, y: f32, z: f32, h: u32) -> Vec3A {
+        Vec3A::from(unsafe { core::arch::x86_64::_mm_set_ps(f32::from_bits(h), z, y, x) })
+    }
     include!("suite.rs");
 }
 #[cfg(feature = "core")]
@@ -16,6 +21,10 @@ mod core_simd {
     use ::glam_core as glam;
     include!(concat!(env!("CARGO_MANIFEST_DIR"), "/../apisupport/api_support.rs"));
     include!(concat!(env!("CARGO_MANIFEST_DIR"), "/../gen/api_table_coresimd.rs"));
+    /// hidden lane injected through the raw-register conversion `From<f32x4>`
+    pub fn raw_inject(x: f32, y: f32, z: f32, h: u32) -> Vec3A {
+        Vec3A::from(core::simd::f32x4::from_array([x, y, z, f32::from_bits(h)]))
+    }
     include!("suite.rs");
 }
 
